@@ -599,6 +599,14 @@ class Glyph(BaseObject):
         """
         assert contour not in self
         assert contour.glyph in (self, None), "This contour belongs to another glyph."
+        if contour.glyph is None:
+            # a contour that is going to be rejected must not be announced
+            incoming = set()
+            for identifier in [contour.identifier] + [point.identifier for point in contour]:
+                if identifier is not None:
+                    assert identifier not in self._identifiers
+                    assert identifier not in incoming
+                    incoming.add(identifier)
         self.postNotification(notification="Glyph.ContourWillBeAdded", data=dict(object=contour))
         if contour.glyph is None:
             identifiers = self._identifiers
@@ -746,6 +754,9 @@ class Glyph(BaseObject):
         """
         assert component not in self._components
         assert component.glyph in (self, None), "This component belongs to another glyph."
+        if component.glyph is None and component.identifier is not None:
+            # a component that is going to be rejected must not be announced
+            assert component.identifier not in self._identifiers
         self.postNotification(notification="Glyph.ComponentWillBeAdded", data=dict(object=component))
         if component.glyph is None:
             if component.identifier is not None:
@@ -765,6 +776,8 @@ class Glyph(BaseObject):
 
         This will post a *Glyph.Changed* notification.
         """
+        if component not in self._components:
+            raise ValueError("component not in glyph")
         self.postNotification(notification="Glyph.ComponentWillBeDeleted", data=dict(object=component))
         if component.identifier is not None:
             self._identifiers.remove(component.identifier)
@@ -905,6 +918,9 @@ class Glyph(BaseObject):
 
         assert anchor not in self._anchors
         assert anchor.glyph in (self, None), "This anchor belongs to another glyph."
+        if anchor.glyph is None and anchor.identifier is not None:
+            # an anchor that is going to be rejected must not be announced
+            assert anchor.identifier not in self._identifiers
 
         self.postNotification(notification="Glyph.AnchorWillBeAdded", data=dict(object=anchor))
         if anchor.glyph is None:
@@ -925,6 +941,8 @@ class Glyph(BaseObject):
 
         This will post a *Glyph.Changed* notification.
         """
+        if anchor not in self._anchors:
+            raise ValueError("anchor not in glyph")
         self.postNotification(notification="Glyph.AnchorWillBeDeleted", data=dict(object=anchor))
         if anchor.identifier is not None:
             self._identifiers.remove(anchor.identifier)
@@ -1023,6 +1041,9 @@ class Glyph(BaseObject):
         assert guideline.glyph in (self, None), "This guideline belongs to another glyph."
         if guideline.glyph is None:
             assert guideline.font is None, "This guideline belongs to a font."
+            if guideline.identifier is not None:
+                # a guideline that is going to be rejected must not be announced
+                assert guideline.identifier not in self._identifiers
         self.postNotification(notification="Glyph.GuidelineWillBeAdded", data=dict(object=guideline))
         if guideline.glyph is None:
             if guideline.identifier is not None:
@@ -1043,6 +1064,8 @@ class Glyph(BaseObject):
 
         This will post a *Glyph.Changed* notification.
         """
+        if guideline not in self._guidelines:
+            raise ValueError("guideline not in glyph")
         self.postNotification(notification="Glyph.GuidelineWillBeDeleted", data=dict(object=guideline))
         if guideline.identifier is not None:
             self._identifiers.remove(guideline.identifier)
